@@ -1,6 +1,7 @@
 package handler
 
 import (
+	"encoding/json"
 	"io"
 	"net/http"
 	"net/url"
@@ -21,7 +22,7 @@ type c07Req struct {
 	transport int // 0 GET, 1 POST json, 2 POST application/graphql, 3 POST form
 	doc       int // index into hDocs
 	accept    int // index into hAccepts
-	ext       int // POST json only: 0 no extensions, 1 persistedQuery with the text's own hash (registers), 2 with the hash of hDocs[0]'s text
+	ext       int // POST json only: 3 / 4 = a body without a query member (operationName only / variables only); 0 no extensions, 1 persistedQuery with the text's own hash (registers), 2 with the hash of hDocs[0]'s text
 }
 
 // a corpus mixing transports, valid and invalid documents, operation names and Accept headers
@@ -32,6 +33,8 @@ var c07Corpus = []c07Req{
 	{1, 0, 1, 1}, {1, 5, 1, 2}, {1, 2, 0, 2},
 	// texts that differ only inside a string literal / in where a comment ends (they must not share a cache slot)
 	{1, 11, 0, 0}, {1, 12, 0, 0}, {0, 12, 1, 0}, {1, 13, 0, 0}, {2, 14, 0, 0},
+	// POST bodies without a query member
+	{1, 1, 0, 3}, {1, 0, 1, 4},
 	// texts that collide under common 32-bit checksums
 	{1, 15, 0, 0}, {1, 16, 0, 0}, {1, 17, 0, 0}, {0, 18, 0, 0}, {1, 19, 0, 0}, {1, 20, 0, 0}, {2, 21, 0, 0}, {1, 22, 0, 0}, {1, 23, 0, 0}, {3, 24, 0, 0},
 }
@@ -61,6 +64,12 @@ func c07Build(q c07Req) *http.Request {
 			body = body[:len(body)-1] + `,"extensions":` + c15Ext(c15Sum(d.query)) + `}`
 		case 2:
 			body = body[:len(body)-1] + `,"extensions":` + c15Ext(c15Sum(hDocs[0].query)) + `}`
+		case 3:
+			// no "query" member at all (an operation name only): whatever text an earlier request carried must not be taken for it
+			o, _ := json.Marshal(d.op)
+			body = `{"operationName":` + string(o) + `}`
+		case 4:
+			body = `{"variables":{"a":1}}`
 		}
 		r.Body = io.NopCloser(strings.NewReader(body))
 	case 2:
